@@ -24,7 +24,7 @@ _RE = re.compile(r'<<"(CEX|BEH)", "(\w+)", (".*")>>\s*$')
 
 def _cfg(name, cap, maxcmds, maxruns, invariants, view=True):
     with open(os.path.join(SPEC, name), "w") as f:
-        f.write("SPECIFICATION Spec\nCONSTANTS\n  Entries <- EntriesDef\n  Final <- FinalDef\n  BpRules <- BpRulesDef\n"
+        f.write("SPECIFICATION Spec\nCONSTANTS\n  Entries <- EntriesDef\n  Final <- FinalDef\n  BpRules <- BpRulesDef\n  GrammarRules <- GrammarRulesDef\n"
                 "  Cap = %d\n  MaxCmds = %d\n  MaxRuns = %d\n  AllowBadRun = FALSE\n%sINVARIANTS %s\nCHECK_DEADLOCK FALSE\n"
                 % (cap, maxcmds, maxruns, "VIEW view\n" if view else "", " ".join(invariants)))
 
@@ -98,13 +98,15 @@ def run(ctx):
         nb += a
         hits += b
     nscripts = 0
-    for (si, script) in enumerate(SCRIPTS):
+    e_any = run_json([vd, "entries", "--input", "xyx"], env={"VDBG_GRAMMAR": ANY_GRAMMAR})
+    plan = [(i, sc, e, None) for (i, sc) in enumerate(SCRIPTS)] + [(100 + i, sc, e_any, ANY_GRAMMAR) for (i, sc) in enumerate(ANY_SCRIPTS)]
+    for (si, script, ee, gram) in plan:
         for cap in (1, 2):
             sf = os.path.join(ctx.work, "entries_script.ndjson")
-            open(sf, "w").write(json.dumps(dict(e, script=[{"c": c.split(":")[0], "r": (c.split(":") + [""])[1]} for c in script])) + "\n")
+            open(sf, "w").write(json.dumps(dict(ee, script=[{"c": c.split(":")[0], "r": (c.split(":") + [""])[1]} for c in script])) + "\n")
             name = "MC_Debugger_scr_run.cfg"
             with open(os.path.join(SPEC, name), "w") as f:
-                f.write("SPECIFICATION Spec\nCONSTANTS\n  Entries <- EntriesDef\n  Final <- FinalDef\n  BpRules <- BpRulesDef\n"
+                f.write("SPECIFICATION Spec\nCONSTANTS\n  Entries <- EntriesDef\n  Final <- FinalDef\n  BpRules <- BpRulesDef\n  GrammarRules <- GrammarRulesDef\n"
                         "  Cap = %d\n  MaxCmds = %d\n  MaxRuns = %d\n  AllowBadRun = TRUE\nCONSTRAINT FollowsScript\nINVARIANTS EmitScripted EmitStuck InvOnePerContinue InvNothingWhileWaiting\nCHECK_DEADLOCK FALSE\n"
                         % (cap, len(script), max(1, sum(1 for c in script if c in ("run", "runbad")))))
             try:
@@ -117,13 +119,14 @@ def run(ctx):
             behs = _dumps(r.out, "BEH")
             if not r.ok and not behs:
                 raise ToolError("MC_Debugger script %d: %s" % (si, r.violated))
-            (a, b) = _replay_behs(ctx, vd, cap, behs, "scr%d" % si, 12 if quick else 60)
+            (a, b) = _replay_behs(ctx, vd, cap, behs, "scr%d" % si, 12 if quick else 60, grammar=gram)
             nb += a
             hits += b
-            # the same schedules on the grammar whose start rule is silent (same entries, other bookkeeping)
-            (a, b) = _replay_behs(ctx, vd, cap, behs, "scrs%d" % si, 6 if quick else 30, grammar=SILENT_TOP)
-            nb += a
-            hits += b
+            if gram is None:
+                # the same schedules on the grammar whose start rule is silent (same entries, other bookkeeping)
+                (a, b) = _replay_behs(ctx, vd, cap, behs, "scrs%d" % si, 6 if quick else 30, grammar=SILENT_TOP)
+                nb += a
+                hits += b
             nscripts += 1
     ne = _entries(ctx, quick)
     ctx.cov["traces_validated_against_impl"] = nb + ne
@@ -148,6 +151,13 @@ SCRIPTS = [
     ["add:b", "run", "recv", "run", "recv", "cont", "recv", "cont", "recv"],              # restart while the parser waits at its first breakpoint
     ["add:a", "runbad", "run", "run", "recv", "cont", "recv", "cont", "recv"],            # a session that panics (undefined rule): the next run fails, the one after works
     ["add:a", "run", "recv", "runbad", "recv", "run", "cont", "run", "recv", "cont", "recv"],
+]
+# scripts on a grammar in which a built-in is entered (`b = { ANY }`): a breakpoint on ANY is not a grammar rule, and
+# "add all rules" must keep it
+ANY_GRAMMAR = 'a = { "x" }\nb = { ANY }\ntop = { a ~ b ~ a ~ b? }\n'
+ANY_SCRIPTS = [
+    ["add:ANY", "run", "recv", "addall", "cont", "recv", "cont", "recv", "cont", "recv", "cont", "recv"],
+    ["addall", "add:ANY", "del:b", "run", "recv", "cont", "recv", "cont", "recv", "delall", "add:ANY", "cont", "recv"],
 ]
 
 
